@@ -572,6 +572,16 @@ impl JsonbBuilder {
             JsonbBuilderValue::Object(entries) => {
                 let mut sorted_entries: Vec<_> = entries.iter().collect();
                 sorted_entries.sort_by(|a, b| a.0.cmp(&b.0));
+                // Duplicate keys: the last occurrence wins. The sort is stable, so equal
+                // keys are adjacent and still in source order.
+                sorted_entries.dedup_by(|later, earlier| {
+                    if later.0 == earlier.0 {
+                        *earlier = *later;
+                        true
+                    } else {
+                        false
+                    }
+                });
 
                 let entry_count = sorted_entries.len() * 2;
                 let header = ((JSONB_TYPE_OBJECT as u32) << 28) | (entry_count as u32);
